@@ -127,15 +127,30 @@ def has_post_eos_garbage(case_batch):
     return False
 
 
-def to_tensors(case_batch, batch_first):
+LAYOUTS = ["contiguous", "contiguous", "transposed_view", "offset_view"]
+
+
+def _lay(x, batch_first, layout):
+    """x is (N, L) contiguous; returns the tensor handed to the library in the requested memory layout:
+    its own contiguous storage, a transposed view of the other layout, or a slice of a larger tensor."""
+    import torch
+
+    if layout == "transposed_view":
+        return x.t().contiguous().t() if batch_first else x.t()
+    y = x if batch_first else x.t().contiguous()
+    if layout == "offset_view":
+        junk = torch.full((2,) + tuple(y.shape[1:]), 9, dtype=y.dtype)
+        y = torch.cat([junk, y, junk], 0)[2:2 + y.shape[0]]
+    return y
+
+
+def to_tensors(case_batch, batch_first, layout="contiguous"):
     import torch
 
     N, R, H = case_batch["N"], case_batch["R"], case_batch["H"]
     ref = torch.tensor(case_batch["refs"], dtype=torch.long).reshape(N, R)
     hyp = torch.tensor(case_batch["hyps"], dtype=torch.long).reshape(N, H)
-    if not batch_first:
-        ref, hyp = ref.t().contiguous(), hyp.t().contiguous()
-    return ref, hyp
+    return _lay(ref, batch_first, layout), _lay(hyp, batch_first, layout)
 
 
 def common_classes(b, rl, hl, costs):
